@@ -500,3 +500,34 @@ func (c *Conn) SetReadDeadline(t time.Time) error {
 	c.Deadlines = append(c.Deadlines, t)
 	return nil
 }
+
+// InfoA additionally reports an access time, InfoAC an access and a change time
+// (the optional interfaces of pkg/proto).
+type InfoA struct {
+	Info
+	ATimeV int64
+}
+
+func (i *InfoA) AccessTime() time.Time { return verifrt.TimeUnix(i.ATimeV) }
+
+type InfoAC struct {
+	InfoA
+	CTimeV int64
+}
+
+func (i *InfoAC) ChangeTime() time.Time { return verifrt.TimeUnix(i.CTimeV) }
+
+// NewInfo returns a file info with symbolic fields; kind 0 = plain, 1 = with access time, 2 = with access and change time.
+// It also returns the expected (mtime, ctime, atime) triple.
+func NewInfo(label string, name string, kind int) (fs.FileInfo, int64, int64, int64) {
+	base := Info{NameV: name, SizeV: verifrt.Int64(label + ".size"), DirV: verifrt.Bool(label + ".isdir"), MTimeV: verifrt.Int64(label + ".mtime")}
+	switch kind {
+	case 1:
+		a := verifrt.Int64(label + ".atime")
+		return &InfoA{Info: base, ATimeV: a}, base.MTimeV, base.MTimeV, a
+	case 2:
+		a, c := verifrt.Int64(label+".atime"), verifrt.Int64(label+".ctime")
+		return &InfoAC{InfoA: InfoA{Info: base, ATimeV: a}, CTimeV: c}, base.MTimeV, c, a
+	}
+	return &base, base.MTimeV, base.MTimeV, base.MTimeV
+}
